@@ -142,6 +142,9 @@ pub fn special_sequences(set: u8) -> Vec<Vec<u8>> {
         &[
             &[0xE1, 0x14, 0x77, 0xE1, 0xF0, 0x14, 0xF0, 0x77], // Pause
             &[0xE0, 0x7E, 0xE0, 0xF0, 0x7E],                   // Ctrl+Break
+            &[0xE0, 0x37, 0xE0, 0xF0, 0x37], // ACPI Power, Sleep, Wake: make + break
+            &[0xE0, 0x3F, 0xE0, 0xF0, 0x3F],
+            &[0xE0, 0x5E, 0xE0, 0xF0, 0x5E],
             &[0x14],
             &[0xF0, 0x14],
             &[0xE0, 0x14],
@@ -179,6 +182,9 @@ pub fn special_sequences(set: u8) -> Vec<Vec<u8>> {
         &[
             &[0xE1, 0x1D, 0x45, 0xE1, 0x9D, 0xC5], // Pause
             &[0xE0, 0x46, 0xE0, 0xC6],             // Ctrl+Break
+            &[0xE0, 0x5E, 0xE0, 0xDE], // ACPI Power, Sleep, Wake: make + break
+            &[0xE0, 0x5F, 0xE0, 0xDF],
+            &[0xE0, 0x63, 0xE0, 0xE3],
             &[0x1D],
             &[0x9D],
             &[0xE0, 0x1D],
